@@ -305,6 +305,12 @@ class ExecMixin:
         if seq.length.hi < n - (1 if starred else 0) or (seq.length.lo > n and not starred):
             self.do_raise(state, "ValueError", node, implicit=True, mro=("ValueError", "Exception"))
             return None
+        if not starred:
+            # a successful unpacking into n targets means the sequence has exactly n elements: target i gets position i
+            out = [subst_val(seq.elem, {seq.kvar: ("c", i)}) for i in range(n)]
+            if seq.witness is not None:
+                out = [join_val(x, seq.witness) for x in out]
+            return out
         e = subst_val(seq.elem, {seq.kvar: STAR})
         return [e] * n
 
@@ -499,6 +505,38 @@ class ExecMixin:
                 self.exec_block(st.orelse, res)
         state.assign_from(res)
 
+    @staticmethod
+    def _name_unknown_position(elem: Val, token: str) -> Val:
+        """The element bound in one iteration is one object even when its position in its family is unknown ('*'): when
+        the element holds exactly one such object its unknown coordinates are named oth(token) for the time of the
+        iteration, so that two reads through the loop variable denote the same object (and nothing else does)."""
+        found = []
+
+        def collect(v, depth=0):
+            if depth > 3:
+                return
+            if isinstance(v, Ptr) and any(i == STAR for i in v.idx):
+                if v not in found:
+                    found.append(v)
+            elif isinstance(v, TupleV):
+                for x in v.items:
+                    collect(x, depth + 1)
+
+        collect(elem)
+        if len(found) != 1:
+            return elem
+        target = found[0]
+        named = Ptr(target.loc, tuple(("oth", ivar(token)) if i == STAR else i for i in target.idx))
+
+        def rebuild(v, depth=0):
+            if v == target:
+                return named
+            if isinstance(v, TupleV) and depth <= 3:
+                return TupleV(tuple(rebuild(x, depth + 1) for x in v.items))
+            return v
+
+        return rebuild(elem)
+
     def _widen_state(self, old: State, new: State) -> State:
         self.widened = True  # ranges may have jumped to infinity: an unbounded result is then no evidence of overflow
         j = self.join(old, new)
@@ -569,6 +607,7 @@ class ExecMixin:
         lc.seq = seq
         self.token_loop[lc.token] = lc.loopid
         elem_t = subst_val(seq.elem, {seq.kvar: ivar(lc.token)})
+        elem_t = self._name_unknown_position(elem_t, lc.token)
         lo, hi = seq.length.lo, seq.length.hi
 
         struct_prov = frozenset(f[5:] for f in seq.flags if isinstance(f, str) and f.startswith("PROV:"))
